@@ -19,6 +19,7 @@ import (
 	"gitlab.com/aquachain/aquachain/core"
 	"gitlab.com/aquachain/aquachain/core/types"
 	"gitlab.com/aquachain/aquachain/core/vm"
+	"gitlab.com/aquachain/aquachain/crypto"
 	"gitlab.com/aquachain/aquachain/p2p"
 	"gitlab.com/aquachain/aquachain/p2p/discover"
 	"gitlab.com/aquachain/aquachain/params"
@@ -42,6 +43,7 @@ func (p *verifTxPool) SubscribeTxPreEvent(ch chan<- core.TxPreEvent) event.Subsc
 
 // VerifPM is a ProtocolManager over an in-memory chain of `blocks` empty blocks.
 type VerifPM struct {
+	db     aquadb.Database
 	pm     *ProtocolManager
 	Hashes []common.Hash // canonical hashes, index = number
 	Blocks []*types.Block
@@ -71,7 +73,7 @@ func VerifNewPM(blocks int) (*VerifPM, error) {
 		return nil, err
 	}
 	pm.Start(1000)
-	v := &VerifPM{pm: pm}
+	v := &VerifPM{pm: pm, db: db}
 	for i := uint64(0); i <= uint64(blocks); i++ {
 		b := blockchain.GetBlockByNumber(i)
 		if b == nil {
@@ -183,3 +185,147 @@ func (v *VerifPM) HandleOne(code uint64, size uint32, payload []byte, timeout ti
 }
 
 func (v *VerifPM) Stop() { v.pm.Stop() }
+
+// ---- a remote peer connected through the whole peer life cycle (C17 follow-up 3)
+
+var verifBankKey, _ = crypto.HexToBtcec("b71c71a67e1177ad4e901695e1b4b9ee17ae16c6668d313eac2f96dbcda3f291")
+
+// ExtendChain builds n blocks on top of the local head (not inserted), each with
+// txsPerBlock value transfers from the funded genesis account: the chain an
+// honest or adversarial remote peer serves from.
+func (v *VerifPM) ExtendChain(n, txsPerBlock int) ([]*types.Block, []types.Receipts) {
+	parent := v.pm.blockchain.CurrentBlock()
+	cfg := v.pm.chainconfig
+	from := crypto.PubkeyToAddress(verifBankKey.PubKey())
+	st, _ := v.pm.blockchain.State()
+	nonce := st.GetNonce(from)
+	return core.GenerateChain(context.TODO(), cfg, parent, aquahash.NewFaker(), v.db, n, func(i int, g *core.BlockGen) {
+		k := txsPerBlock
+		if k < 0 { // vary the number of transactions per block: 1 + i mod |k|
+			k = 1 + i%(-k)
+		}
+		for j := 0; j < k; j++ {
+			tx := types.NewTransaction(nonce, common.Address{byte(i + 1), byte(j)}, big.NewInt(1), params.TxGas, big.NewInt(0), nil)
+			tx, _ = types.SignTx(tx, types.MakeSigner(cfg, g.Number()), verifBankKey)
+			g.AddTx(tx)
+			nonce++
+		}
+	})
+}
+
+func (v *VerifPM) Head() (hash common.Hash, number uint64, td *big.Int) {
+	h := v.pm.blockchain.CurrentHeader()
+	return h.Hash(), h.Number.Uint64(), v.pm.blockchain.GetTd(h.Hash(), h.Number.Uint64())
+}
+func (v *VerifPM) Genesis() common.Hash { return v.pm.blockchain.Genesis().Hash() }
+
+// VerifRemote is the far end of a connection that went through
+// ProtocolManager.handle: status handshake, registration with the peer set and
+// the downloader, then the handleMsg loop — all on the node's own goroutines,
+// nothing recovered: a panic anywhere kills the process, as it would a node.
+type VerifRemote struct {
+	app  *p2p.MsgPipeRW
+	peer *peer
+	pm   *ProtocolManager
+	ID   string
+	Done chan error // result of pm.handle when the node drops the peer
+}
+
+func (v *VerifPM) Connect(name string, head common.Hash, td *big.Int) (*VerifRemote, error) {
+	app, net := p2p.MsgPipe()
+	var id discover.NodeID
+	copy(id[:], crypto.Keccak256([]byte(name)))
+	p := v.pm.newPeer(aqua65, p2p.NewPeer(id, name, nil), net)
+	r := &VerifRemote{app: app, peer: p, pm: v.pm, ID: p.id, Done: make(chan error, 1)}
+	go func() { r.Done <- v.pm.handle(p) }()
+	// remote side of the status exchange
+	errc := make(chan error, 1)
+	go func() {
+		msg, err := app.ReadMsg()
+		if err != nil {
+			errc <- err
+			return
+		}
+		msg.Discard()
+		errc <- p2p.Send(app, StatusMsg, &statusData{ProtocolVersion: aqua65, ChainId: v.pm.networkId, TD: td, CurrentBlock: head, GenesisBlock: v.Genesis()})
+	}()
+	select {
+	case err := <-errc:
+		if err != nil {
+			return nil, err
+		}
+	case <-time.After(10 * time.Second):
+		return nil, fmt.Errorf("status exchange timed out")
+	}
+	// wait until the node has registered the peer
+	for i := 0; i < 500 && v.pm.peers.Peer(p.id) == nil; i++ {
+		time.Sleep(2 * time.Millisecond)
+	}
+	return r, nil
+}
+
+// Sync runs ProtocolManager.synchronise against this peer (what the syncer loop does); the channel closes when it returns.
+func (r *VerifRemote) Sync() <-chan struct{} {
+	ch := make(chan struct{})
+	go func() { r.pm.synchronise(r.peer); close(ch) }()
+	return ch
+}
+
+// ReadMsg: the next message the node sent to this peer.
+func (r *VerifRemote) ReadMsg(timeout time.Duration) (code uint64, payload []byte, ok bool) {
+	type res struct {
+		c uint64
+		p []byte
+		e error
+	}
+	ch := make(chan res, 1)
+	go func() {
+		m, err := r.app.ReadMsg()
+		if err != nil {
+			ch <- res{e: err}
+			return
+		}
+		b, _ := ioutilReadAll(m)
+		ch <- res{c: m.Code, p: b}
+	}()
+	select {
+	case x := <-ch:
+		return x.c, x.p, x.e == nil
+	case <-time.After(timeout):
+		return 0, nil, false
+	}
+}
+
+func ioutilReadAll(m p2p.Msg) ([]byte, error) {
+	buf := make([]byte, 0, m.Size)
+	tmp := make([]byte, 4096)
+	for {
+		n, err := m.Payload.Read(tmp)
+		buf = append(buf, tmp[:n]...)
+		if err != nil {
+			return buf, nil
+		}
+	}
+}
+
+// Send writes (code, payload) to the node; false if the node did not take it in time (peer dropped).
+func (r *VerifRemote) Send(code uint64, payload []byte, timeout time.Duration) bool {
+	ch := make(chan error, 1)
+	go func() {
+		ch <- r.app.WriteMsg(p2p.Msg{Code: code, Size: uint32(len(payload)), Payload: strings.NewReader(string(payload))})
+	}()
+	select {
+	case err := <-ch:
+		return err == nil
+	case <-time.After(timeout):
+		return false
+	}
+}
+
+func (r *VerifRemote) Close() { r.app.Close() }
+
+// Connected: is the peer still in the node's peer set?
+func (r *VerifRemote) Connected() bool { return r.pm.peers.Peer(r.ID) != nil }
+
+// LocalHeight is the node's current block number.
+func (v *VerifPM) LocalHeight() uint64 { return v.pm.blockchain.CurrentBlock().NumberU64() }
